@@ -844,7 +844,7 @@ class LanguageCsharp(Language):
         result = ""
         if len(setOfProjectDependencies) > 0:
             result = "<ItemGroup>\n"
-            for s in setOfProjectDependencies:
+            for s in sorted(setOfProjectDependencies):
                 result = result + '    <ProjectReference Include="..\\' + s + '\\' + s + '.csproj" />\n'
             result = result + "</ItemGroup>\n"
         return result
@@ -920,7 +920,7 @@ def _getNamespaceToClassesFromFullyQualifiedNames(classObj, setOfClasses, is_fil
     """
     namespace_to_class = OrderedDict()
     # Get a dictionary of namespace names, with all classes within.
-    for f in setOfClasses:
+    for f in sorted(setOfClasses):  # a set: iterate in a defined order, or the output changes with the hash seed
         if is_file_include:
             # If a class is in the same namespace...then it is in the same folder...so clean this first.
             f = f.replace(classObj.NAMESPACE + "::", "")
